@@ -567,5 +567,15 @@ fn run_case(case: &Value) -> Value {
 
 fn main() {
     start_watchdog();
-    pkharness::run_domain(run_case);
+    // every case runs on a thread with Rust's default thread stack (2 MiB): a decoder whose recursion depth grows
+    // with the input overflows it on inputs of a few hundred kilobytes (the process dies; the driver isolates the input)
+    pkharness::run_domain(|case| {
+        let case = case.clone();
+        std::thread::Builder::new()
+            .stack_size(2 << 20)
+            .spawn(move || run_case(&case))
+            .expect("spawn")
+            .join()
+            .unwrap_or_else(|_| serde_json::json!({"panic": true, "msg": "worker thread panicked outside the guarded call"}))
+    });
 }
